@@ -235,6 +235,8 @@ class Socket:
                 pipe.n_ab -= 1
         if self.type == PULL:
             net.tap('pullrecv', self, parts, pipe)
+        elif self.type == SUB and len(parts) > 1 and b'"mid":-2' in parts[1]:
+            net.tap('subrecv_oob', self, parts, pipe)
         return list(parts)
 
     def send(self, data, flags=0, **kw):
